@@ -299,3 +299,48 @@ func VerifC18_CarrierUpdatesMap() {
 	}
 	verifapi.Cover("two carriers of one session")
 }
+
+// ---- C05 / C18 / C20: every KCP session is served by its own goroutine --------------------------
+
+var (
+	verifKCPSessions [2]*kcp.UDPSession
+	verifKCPNext     int
+	verifServed      [2]int
+	verifSessClosed  [2]int
+)
+
+func verifAcceptKCP(ln *kcp.Listener) (*kcp.UDPSession, error) {
+	verifapi.Yield() // goroutines of earlier sessions may run before, between or after accepts
+	if verifKCPNext >= len(verifKCPSessions) {
+		return nil, errors.New("listener closed (stub)")
+	}
+	s := verifKCPSessions[verifKCPNext]
+	verifKCPNext++
+	return s, nil
+}
+func verifSessIndex(s *kcp.UDPSession) int {
+	for i, x := range verifKCPSessions {
+		if x == s {
+			return i
+		}
+	}
+	verifapi.Assert(false, "an unknown session object")
+	return 0
+}
+func verifAcceptStreamsRec(l *SnowflakeListener, conn *kcp.UDPSession) error {
+	verifServed[verifSessIndex(conn)]++
+	return nil
+}
+func verifKCPClose(s *kcp.UDPSession) error { verifSessClosed[verifSessIndex(s)]++; return nil }
+
+func VerifC05_AcceptSessions() {
+	verifKCPSessions = [2]*kcp.UDPSession{new(kcp.UDPSession), new(kcp.UDPSession)}
+	l := &SnowflakeListener{}
+	l.acceptSessions(new(kcp.Listener))
+	verifapi.Quiesce()
+	verifapi.Cover("accept loop ended")
+	for i := range verifKCPSessions {
+		verifapi.Assert(verifServed[i] == 1, "C05: every KCP session is served exactly once, by its own goroutine (no goroutine picks up another session)")
+		verifapi.Assert(verifSessClosed[i] >= 1, "a session is closed when its streams are over")
+	}
+}
